@@ -3,6 +3,8 @@ SPEC = {
     "harness": "c05",
     "n": {"quick": 320, "thorough": 4000},
     "shard": 24,
+    "tie_codes": (),      # every code of Check/C05.v is an observable the property determines: always a failing input
+
     "harness_args": lambda tier: ["-per", "12"],
     "trusted_base": [
         "golang.org/x/net/html parsing: the tree it produced is dumped by the harness and is the model's input",
